@@ -12,6 +12,11 @@ type Method struct {
 	Name         string
 	Doc          *FuncDoc
 	Combinations []*Combination
+	// NextPrimary when true gives each primary method a location so that
+	// call-next-method in a primary method continues with the next most
+	// specific primary method. It is set on the effective method of a
+	// generic function.
+	NextPrimary bool
 }
 
 // Simplify by returning a representation of the method.
@@ -51,9 +56,13 @@ func (m *Method) InnerCall(s *Scope, args List, depth int) (result Object) {
 			c.Before.Call(s, args, depth)
 		}
 	}
-	for _, c := range m.Combinations {
+	for i, c := range m.Combinations {
 		if c.Primary != nil {
-			result = c.Primary.Call(s, args, depth)
+			if m.NextPrimary {
+				result = m.primaryCall(s, i, args, depth)
+			} else {
+				result = c.Primary.Call(s, args, depth)
+			}
 			break
 		}
 	}
@@ -64,6 +73,16 @@ func (m *Method) InnerCall(s *Scope, args List, depth int) (result Object) {
 		}
 	}
 	return
+}
+
+// primaryCall calls the primary method of the combination at index i with a
+// location that lets call-next-method and next-method-p find the next primary
+// method instead of the location of an enclosing :around method.
+func (m *Method) primaryCall(s *Scope, i int, args List, depth int) Object {
+	ps := s.NewScope()
+	ps.UnsafeLet("~whopper-location~", &WhopLoc{Method: m, Current: i, Primary: true})
+
+	return m.Combinations[i].Primary.Call(ps, args, depth)
 }
 
 func (m *Method) BoundCall(s *Scope, depth int) Object {
